@@ -10,7 +10,7 @@ CHECKS = {
     "C02": dict(tech="TLC-generated single-deviation programs replayed on the real code (must be rejected); TLC trace validation (IdealSoundness) on toy31723 with re-run of lucky accepts",
                 text="Every single violated constraint or gate of every bounded program is pushed through the unmodified proving code (guarded gate-overwrite hook) and must be rejected on all curves; the model's DeviationIffUnsatisfied invariant ties the expectation to the statement semantics.",
                 note="bounded call depth; one deviation per program; Schwartz-Zippel luck on the toy curve handled by re-running with fresh randomness", ref="5 C02"),
-    "C03": dict(tech="TLC trace validation on toy curves: the verifier's verdict is recomputed from the recorded statement, proof and challenges (combined check, unbatched relations with explicit folding)",
+    "C03": dict(tech="TLC trace validation on toy curves: the verifier's verdict is recomputed from the recorded statement, proof and challenges (combined check, unbatched relations with explicit folding), including proofs crafted with the combiner the verifier derived for the unaltered proof (combiner attack)",
                 text="For every verify call recorded on toy7/toy79/toy31723 (honest, bad-witness and tampered proofs) TLC recomputes the specification's verdict, the residuals Tres and Ires of the unbatched relations and the combined residual, and demands verdict equality, mega = Ires + r*Tres and verdict = relations up to the single colliding r; small groups make a mis-weighted or dropped term visible.",
                 note="toy curves only (exact recomputation needs P^2 < 2^31); the library code is curve-generic, so the same monomorphised logic runs on the real curves; challenge scalars taken as derived by the code (hook H3)", ref="5 C03"),
     "C05": dict(tech="replay of every single verifier-side statement/context deviation on the real code + TLC trace validation on toy31723 (StatementBinding invariant over the recorded calls of both roles, exact verdict of the deviating statement)",
@@ -24,10 +24,10 @@ CHECKS = {
                 note="n <= 5 (9); 2 (9) encodings per curve for the bit sweep; toy verdicts exact", ref="5 C04"),
     "C07": dict(tech="TLC model checking of BatchIff/BatchCorrelated over F_7 (MC_Batch, with a failing shared-weight spec mutant) + replay of every batch pattern and order on the real batch_verify + TLC trace validation of the batch verdict from recorded weights on toy curves",
                 text="Every pattern of valid/tampered/bad-witness/+d/-d members up to the bound, in every order, and larger batches with one invalid member per position and an embedded +-d pair, run through the real batch_verify: the verdict must equal the conjunction of individual verdicts on the 256-bit curves and the specification's weighted-residual verdict on toy curves.",
-                note="patterns <= 3 (4) members, all orders for <= 3; batches of 6 (12); weights recovered from the seeded caller RNG", ref="5 C07"),
+                note="patterns <= 3 (4) members, all orders for <= 3; batches of 6 (12) and the empty batch; weights recovered from the seeded caller RNG; a batch accepted by coincidence on a toy group must repeat under two other weight seeds to count", ref="5 C07"),
     "C08": dict(tech="TLC enumeration of structurally arbitrary proofs (MC_Hostile: TotalVerifier, ShapeGuardExact) + replay of every grid point through from_bytes/verify under catch_unwind + TLC trace validation of the exact verdict on toy31723 + seeded byte mutations with an allocation meter",
                 text="Every (gates, |L|, |R|) grid point and every field forced to identity/zero is built by surgery on an honest proof and verified on all curves; a panic or a verdict other than the specification's is a violation; decoder memory is metered against a linear bound under inflated counts and random mutations.",
-                note="grid gates <= 9 (12), lengths <= 6 (9); catch_unwind instead of the crate's panic=abort; one genuine defect found by this check and repaired (known_findings.json)", ref="5 C08, 6"),
+                note="grid gates <= 9 (12), lengths <= 6 (9), also through batch_verify; catch_unwind instead of the crate's panic=abort; a process abort (allocation sized from a count) is caught through a write-ahead record of the decoder input; one genuine defect found by this check and repaired (known_findings.json)", ref="5 C08, 6"),
     "C09": dict(tech="TLC model checking of NonceInjective/BlindingPresent on the reference prover (MC_Hiding) + TLC trace validation: the emitted proof equals the reference prover's output on the recorded RNG stream, RNG construction operations + differential runs on the real curves",
                 text="On toy curves every proof field is recomputed by TLC from the witness, the recorded transcript-RNG stream and the challenges, so each blinding scalar is shown to be its own fresh draw and the draw count is exact; the RNG must be built from a transcript fork, one rekey per commitment blinding and 32 external bytes; on the 256-bit curves proofs under different external seeds share no component outside the statement-fixed ones.",
                 note="which draw plays which role is found by intervention on the RNG stream (traced Merlin copy) and must be a bijection; the draw order is not assumed; value-level part on toy31723 only (generators coincide on toy79); shapes n1<=3 (5), n2<=2 (4) in the model", ref="5 C09"),
@@ -39,7 +39,7 @@ CHECKS = {
                 note="k <= 3 (4); per-curve token sizes; arkworks' unchecked decoder is the oracle for 'not a curve point'", ref="5 C11"),
     "C12": dict(tech="TLC enumeration of all capacity histories and views (MC_Gens: HistoryIndependent, ViewPartyMajor; MC_Library: ChainIsGT, ChainGrows) + execution of every history and view on the real generator tables + pinned digests + TLC trace validation of recorded table lives of both roles against Library.tla (every table and view a window of one generator function per trace file; GensBound at prove / verify)",
                 text="Every history of new/increase_capacity/serialise-deserialise/clone within the bounds and every (n, m) view is executed on the real tables and compared entry by entry with the abstract chain; distinctness, non-identity, prime order and bit-for-bit digests from the reference revision are checked on large tables.",
-                note="capacities <= 4 (6), parties <= 2 (3), <= 3 (4) operations; digests pinned in fixtures/gens_digests.json", ref="5 C12"),
+                note="capacities <= 4 (6), parties <= 2 (3), <= 3 (4) operations in the enumeration; recorded lives up to 6 (10) operations, capacities to 16 (32); every recorded view is also walked through nth / skip / step_by / count / last / size_hint; digests pinned in fixtures/gens_digests.json", ref="5 C12"),
     "C13": dict(tech="TLC model checking of the Pedersen laws over F_7 + TLC trace validation of every (v, r) on toy7/toy79 + law instances on the real curves from TLC-chosen value-class patterns",
                 text="Commit(v,r) = v*B + r*B~ is recomputed by TLC for every pair of the toy fields on three base pairs (and Prover::commit with its transcript append); on the 256-bit curves the definition and the linearity laws are checked against independent evaluations on value classes 0, 1, -1, > 2^64, order-2, random.",
                 note="toy: exact by discrete logs; real: arkworks group arithmetic trusted", ref="5 C13"),
